@@ -364,6 +364,7 @@ def execute(scn):
                   offending_mutation_filtered=filtered,
                   rename_entangled=feats['rename_entangled'],
                   name_reuse=feats['name_reuse'],
+                  reuse_kinds=feats['reuse_kinds'],
                   ops=tags, ops_str=' '.join(tags),
                   clean=bool(scn.get('clean')))
     res = {'violations': viols, 'stats': stats, 'nontrivial': False,
